@@ -335,6 +335,21 @@ func (P *Program) registerViper() {
 		in.flattenDefault(in.viper().overrides, in.goStr(args[0], "viper key"), nil, args[1])
 		return nil
 	})
+	// MergeConfigMap / MergeConfig: values merged into the configuration (file) layer - the layer that a
+	// later ReadInConfig replaces
+	P.reg(viperPkg+".MergeConfigMap", func(fr *frame, args []value) value {
+		in := fr.in
+		m, ok := args[0].(*smap)
+		if !ok || m == nil {
+			return iface{}
+		}
+		for i, k := range m.keys {
+			if k != nil {
+				in.flattenDefault(in.viper().file, in.goStr(k, "configuration map key"), nil, m.vals[i])
+			}
+		}
+		return iface{}
+	})
 	P.reg(viperPkg+".SetEnvPrefix", func(fr *frame, args []value) value {
 		fr.in.viper().envPrefix = fr.in.goStr(args[0], "environment prefix")
 		return nil
